@@ -324,6 +324,19 @@ def run_case(rec, rng, case, idx):
             ok_all = False
             continue
         ok_all &= check_dispatch(rec, log, out.logs, c)
+        if stage == "inserted" and n_ins and idx % 3 == 0:
+            # the same text with the library's reports silenced by the application: skipping stays local and nothing breaks
+            with harness.quiet(idx // 3):
+                qo = harness.parse(text)
+            probes.drain()
+            rec.ev()
+            rec.cls("parsed_with_reports_silenced")
+            if not qo.ok or observe.digest(harness.obs(qo.chart)) != base:
+                rec.violation("locality", "with the library's reports silenced (logging.disable / logger level ERROR) the chart with inserted unparsable lines "
+                              + (f"is rejected: {harness.exc_str(qo.exc)}" if not qo.ok else "parses to other events"), dict(c, quiet=idx // 3),
+                              "unparsable-line-aborts-parse" if not qo.ok else "unparsable-line-changes-events")
+                ok_all = False
+                continue
         if observe.digest(harness.obs(out.chart)) != base:
             a, b = harness.obs(out0.chart), harness.obs(out.chart)
             where = [k for k in a if a[k] != b[k]]
@@ -476,3 +489,9 @@ def replay(case, rec):
         t0, o0, _ = parse_obs(rec, [(n, b) for n, b in case["baseline_sections"]], None)
         if o0.ok and observe.digest(harness.obs(o0.chart)) != observe.digest(harness.obs(out.chart)):
             rec.violation("locality", "parsed events differ from the baseline without the unparsable lines", case)
+        if "quiet" in case:
+            with harness.quiet(case["quiet"]):
+                qo = harness.parse(text)
+            probes.drain()
+            if not qo.ok or (o0.ok and observe.digest(harness.obs(o0.chart)) != observe.digest(harness.obs(qo.chart))):
+                rec.violation("locality", "with the library's reports silenced the chart is rejected or parses to other events", case)
